@@ -32,7 +32,10 @@ pub open spec fn spec_name_len(s: Seq<u8>) -> nat decreases s.len() {
     if s.len() == 0 || is_ws(s[0]) { 0 } else { 1 + spec_name_len(s.subrange(1, s.len() as int)) }
 }
 
-/// helper of normalisation N13: equality of byte slices (verified)
+/// helper of normalisation N13: equality of byte slices (verified; a module of its own so that the units that
+/// verify only their own modules name it in `verify_modules`)
+pub mod n13_ {
+use vstd::prelude::*;
 pub fn bytes_eq(a: &[u8], b: &[u8]) -> (r: bool)
     ensures r == (a@ == b@)
 {
@@ -48,3 +51,5 @@ pub fn bytes_eq(a: &[u8], b: &[u8]) -> (r: bool)
     proof { assert(a@ =~= b@); }
     true
 }
+}
+pub use n13_::bytes_eq;
